@@ -208,7 +208,14 @@ func printReplay(h *History, oc outcome) {
 	}
 	if y := h.YieldResume; y != nil {
 		fmt.Printf("  scripted scenario: callee registers, caller (q=%d) calls, stops reading, its queue is filled; YIELD kind %q; the caller resumes %d us of virtual time after the YIELD was taken\n", y.Q, y.Kind, y.ResumeUs)
+		if y.TimeoutMs > 0 {
+			fmt.Printf("  the CALL carries a router-handled timeout of %d ms; the callee's final YIELD stops that timer, also while the RESULT is retried\n", y.TimeoutMs)
+		}
 		fmt.Printf("  model (coq/Conc/YieldRetry.v, prediction): retries at 1, 3, 7, ... ms after the YIELD; RESULT at the first retry instant >= resume instant, else cancel at 65 535 ms\n")
+	}
+	if c := h.CancelStalled; c != nil {
+		fmt.Printf("  scripted scenario: a callee (call_canceling, q=%d) holds a call, stops reading, its queue is filled (completely: %v); the caller CANCELs with mode %q, again 2 ms later; the callee reads again 1 s later\n", c.Q, c.Full, c.Mode)
+		fmt.Printf("  model (coq/Conc/CancelModel.v, sync_cancel): kill waits for the callee only if the INTERRUPT was queued, else the caller is answered at once\n")
 	}
 	for i, o := range h.Ops {
 		mark := ""
